@@ -74,6 +74,19 @@ Theorem C09_cost_non_normal_refuted : exists s ops,
   separate_b s = true /\ abs (fst (run s ops)) <> fst (sp_run (abs s) ops).
 Proof. exact non_normal_refuted. Qed.
 
+(* Known finding C09:cost:duplicate-components: the other shapes outside Normal that the parser produces
+   (a repeated date, label, asterisk, number or currency): the setters act on the first one only and
+   the getter then reads the second. *)
+Theorem C09_cost_duplicates_refuted :
+  Forall (fun c : cost * list cop =>
+            normal_b (fst c) = false /\ abs (fst (run (fst c) (snd c))) <> fst (sp_run (abs (fst c)) (snd c)))
+    [ (mkcost Unit [KDate 1; KDate 2], [ODate None]);
+      (mkcost Unit [KAsterisk; KAsterisk], [OMerge false]);
+      (mkcost Unit [KLabel 1; KLabel 2], [OLabel None]);
+      (mkcost Unit [KNumber 1; KNumber 2], [OPer None]);
+      (mkcost Total [KCurrency 1; KCurrency 2], [OCur None]) ].
+Proof. exact duplicates_refuted. Qed.
+
 Theorem C09_cost_separate_not_normal : forall s, separate_b s = true -> normal_b s = false.
 Proof. exact separate_not_normal. Qed.
 
@@ -85,7 +98,8 @@ Theorem C09_cost_from_value : forall p t c d l m,
   end.
 Proof. exact from_value_refines. Qed.
 
-(* D11: `{1}`, currency = c, number_total = t on the code before the repair loses number_per *)
+(* D11: `{1}`, currency = c, number_total = t on the code before the repair loses number_per.
+   This documents the code before repo commit ecb3422 (apply_gen false); no tree tested today has it. *)
 Theorem C09_cost_unrepaired_refuted : exists s ops,
   Normal s /\ abs (fst (run_gen false s ops)) <> fst (sp_run (abs s) ops).
 Proof. exact unrepaired_refuted. Qed.
@@ -135,12 +149,40 @@ Example C09_txn_example :
   = mktspec None None.
 Proof. reflexivity. Qed.
 
-(* -- plain optional value properties: read-back and frame over independent slots ----------------------- *)
-Theorem C09_get_set : forall d i v, (i < length d)%nat -> slot_get (slot_set d i v) i = v.
-Proof. exact slot_get_set. Qed.
+(* -- value properties (required_value_property, optional_{string,indented_string,decimal,date}_property)
+   over a record of independent slots, the slot's token codec (fmt = from_value/_format_value,
+   parse = _parse_value) being a parameter; each slot holds a node with identity and text. ---------- *)
+(* read-back, incl. None: needs only that the slot's codec round-trips the assigned value (C12) *)
+Theorem C09_get_set : forall (T : Type) (fmt : nat -> Z -> T) (parse : nat -> T -> Z) r i v,
+  (i < length (vr_slots r))%nat -> (forall x, v = Some x -> parse i (fmt i x) = x) ->
+  vget parse (opt_set fmt r i v) i = v.
+Proof. exact opt_get_set. Qed.
 
-Theorem C09_frame : forall d i j v, i <> j -> slot_get (slot_set d i v) j = slot_get d j.
-Proof. exact slot_frame. Qed.
+(* frame: every other property keeps its node, identity and text *)
+Theorem C09_frame : forall (T : Type) (fmt : nat -> Z -> T) r i j v, i <> j ->
+  nth_error (vr_slots (opt_set fmt r i v)) j = nth_error (vr_slots r) j.
+Proof. exact opt_frame. Qed.
 
-Example C09_get_set_example : slot_get (slot_set [Some 1; None; Some 3] 1%nat (Some 8)) 1%nat = Some 8.
+(* the three-way branch of optional_*_property.__set__: update in place keeps the node, creation makes a
+   fresh one *)
+Theorem C09_optional_set_identity : forall (T : Type) (fmt : nat -> Z -> T) r i x,
+  match nth_error (vr_slots r) i with
+  | Some (Some n) => nth_error (vr_slots (opt_set fmt r i (Some x))) i = Some (Some (mkvnode (vn_id n) (fmt i x)))
+  | Some None => nth_error (vr_slots (opt_set fmt r i (Some x))) i = Some (Some (mkvnode (vr_next r) (fmt i x)))
+  | None => opt_set fmt r i (Some x) = r
+  end.
+Proof. exact opt_set_identity. Qed.
+
+Theorem C09_required_get_set_frame : forall (T : Type) (fmt : nat -> Z -> T) (parse : nat -> T -> Z) r i x n,
+  nth_error (vr_slots r) i = Some (Some n) -> parse i (fmt i x) = x ->
+  let '(r', res) := req_set fmt r i x in
+  res = Ok tt /\ vget parse r' i = Some x
+  /\ nth_error (vr_slots r') i = Some (Some (mkvnode (vn_id n) (fmt i x)))
+  /\ forall j, i <> j -> nth_error (vr_slots r') j = nth_error (vr_slots r) j.
+Proof. exact req_get_set. Qed.
+
+Example C09_get_set_example :
+  vget (fun _ t => t - 100)
+       (opt_set (fun _ x => x + 100) (mkvrec [Some (mkvnode 0 101); None; Some (mkvnode 1 103)] 2) 1%nat (Some 8)) 1%nat
+  = Some 8.
 Proof. reflexivity. Qed.
